@@ -90,6 +90,22 @@ def _bounded_rotation(tier, seed):
         base = {"gen": gen.rate(s0, U, Ud0, roughness_length=z0).values, "d4": dis4.rate(s0).values, "d6": dis6.rate(s0).values,
                 "gb": gen.bulk_rate(s0, U, Ud0, roughness_length=z0).values, "d4b": dis4.bulk_rate(s0).values,
                 "dir": dis4.mean_direction_degrees(s0).values, "st": gen.stress(s0, U, Ud0, roughness_length=z0)}
+        # estimated wind (C11's inversion) with and without direction iteration: a wind sea plus an oblique second system, so that the
+        # dissipation-weighted direction and the stress direction differ and the direction iteration actually iterates
+        from ocean_science_utilities.wavephysics.balance.factory import create_balance
+        from ocean_science_utilities.wavephysics.windestimate import estimate_u10_from_source_terms
+        balance = create_balance("st4", "st4")
+        fpw = rng.uniform(0.16, 0.24)
+        Ew = (f / fpw) ** -5 * np.exp(-1.25 * (f / fpw) ** -4)
+        Ew = Ew / np.trapezoid(Ew, f) * (rng.uniform(1.2, 2.0) / 4) ** 2
+        Dw = np.cos(np.radians(d - th0) / 2) ** 10 + 0.5 * np.cos(np.radians(d - th0 - 90.0) / 2) ** 30
+        Dw = Dw / (Dw.sum() * 360.0 / N)
+        Ewind = (Ew[:, None] * Dw[None, :])[None, :, :]
+
+        def inversion(Earr, di):
+            out = estimate_u10_from_source_terms(spec(Earr), balance, direction_iteration=di)
+            return float(out["u10"].values[0]), float(out["direction"].values[0])
+        inv0 = {di: inversion(Ewind, di) for di in (False, True)}
         ks = list(range(N)) if tier != "quick" else [0, 1, 3, N // 2, N - 1]
         for k in ks + ["mirror"]:
             evals += 1
@@ -114,10 +130,21 @@ def _bounded_rotation(tier, seed):
             ok = ok and np.all(np.abs(ds) < 1e-5)
             if not ok:
                 fails.append({"N": N, "k": k, "what": "rotated/mirrored result differs from the rotated/mirrored original"})
+            if k in ("mirror", 1, N // 2) or tier != "quick":
+                for di in (False, True):
+                    u0, w0 = inv0[di]
+                    uk, wk_ = inversion(Ewind[:, :, idx], di)
+                    evals += 1
+                    if np.isnan(u0) and np.isnan(uk):
+                        continue
+                    dw = (wk_ - (sgn * w0 + shift) + 180.0) % 360.0 - 180.0
+                    if not (abs(uk - u0) <= 2e-3 * max(1.0, abs(u0)) and abs(dw) <= 0.05):
+                        fails.append({"N": N, "k": k, "direction_iteration": di, "what": "estimated wind is not equivariant",
+                                      "original": [u0, w0], "transformed": [uk, wk_]})
         if len(samples) < 2:
             samples.append({"N": N, "wind_direction": wd, "ks": [str(x) for x in ks[:5]]})
     return {"evaluations": evals, "distinct": evals, "failures": fails[:6], "samples": samples,
-            "domain": f"N in {Ns}, rotations {'0,1,3,N/2,N-1' if tier == 'quick' else 'all k'} and the mirror image; ST4 input, ST4 and ST6 dissipation fields, bulk rates, dissipation-weighted direction, stress magnitude and direction"}
+            "domain": f"N in {Ns}, rotations {'0,1,3,N/2,N-1' if tier == 'quick' else 'all k'} and the mirror image; ST4 input, ST4 and ST6 dissipation fields, bulk rates, dissipation-weighted direction, stress magnitude and direction; estimated wind speed / direction (st4/st4, with and without direction iteration, two-system sea) for {'k=1, N/2 and the mirror' if tier == 'quick' else 'all k and the mirror'}"}
 
 
 BOUNDED = [Bounded("rotation_and_mirror_compiled", _bounded_rotation)]
